@@ -248,6 +248,10 @@ def pick_ooo(w, rnd):
         return rnd.choice(ghosts)
     hi = max([int(v) for v in w.ever] + [100])
     lo = max(1, min([int(v) for v in w.ever] + [100]) - 20)
+    if len(w.revs) >= 2 and rnd.random() < 0.65:
+        # inside the window the out-of-order analysis looks at: between the first and the last revision
+        rs = sorted(w.revs)
+        lo, hi = int(rs[0]) + 1, int(rs[-1])
     for _ in range(50):
         c = fmt(rnd.randint(lo, hi - 1)) if hi - 1 >= lo else None
         if c and c not in used and c not in w.ever:
@@ -305,12 +309,25 @@ def gen_op(rnd, w):
     if kind == "delete":
         complete = [v for v in with_rev if not w.is_partial(w.revs[v])]
         part = [v for v in with_rev if w.is_partial(w.revs[v])]
-        pool = part if (part and (rnd.random() < 0.25 or not complete)) else complete
+        pool = part if (part and (rnd.random() < 0.4 or not complete)) else complete
         return {"op": "delete", "ver": rnd.choice(pool)}
     if kind == "set":
         if rnd.random() < 0.1:
             return {"op": "set", "ver": fmt(rnd.randint(1, 99))}  # not in the directory
-        return {"op": "set", "ver": rnd.choice(sorted(w.files))}
+        part = [v for v in with_rev if w.is_partial(w.revs[v])]
+        if part and rnd.random() < 0.3:
+            return {"op": "set", "ver": part[0]}
+        v = rnd.choice(sorted(w.files))
+        for _ in range(6):
+            # steer away (mostly) from targets that would leave the claimed domain: a checkpoint version recorded
+            # as a later revision, or a partial revision that is no longer the last one
+            kept = sorted(r for r in w.revs if r <= v)
+            newer = [f for f in sorted(w.files) if f <= v and f not in w.revs and (not kept or f > kept[-1])]
+            after = sorted([(r, w.is_partial(w.revs[r]) and r != v) for r in kept] + [(f, False) for f in newer])
+            if in_domain(w.file_list(), after) is None or rnd.random() < 0.15:
+                break
+            v = rnd.choice(sorted(w.files))
+        return {"op": "set", "ver": v}
     # apply
     op = {"op": "apply", "n": rnd.choice([0, 0, 0, 1, 1, 2, 3]), "order": rnd.choice(["linear", "linear", "linear-skip", "non-linear", "non-linear"]),
           "baseline": None, "allow": False, "tx": rnd.choice(["none", "file"])}
